@@ -6,7 +6,8 @@
 (*   "pass"    calls onward and returns what it got                        *)
 (*   "short"   returns its own result without calling onward               *)
 (*   "fail"    returns an error without calling onward                     *)
-(*   "rewrite" calls onward and marks the result on the way back           *)
+(*   "rewrite" calls onward with a marked context / request / option list  *)
+(*             and marks the result on the way back                        *)
 (* A chain is the ordered list of <<name, behaviour>> a call must pass.    *)
 (* Word(chain) is the sequence of names entered (ending with the handler / *)
 (* base channel "H" if reached); Result(chain) is the token list of the    *)
@@ -33,6 +34,16 @@ ResultOf(chain) ==
        ELSE IF x[2] = "short" THEN <<"s:" \o x[1]>>
        ELSE IF x[2] = "fail" THEN <<"f:" \o x[1]>>
        ELSE Append(ResultOf(Tail(chain)), "+" \o x[1])
+
+RECURSIVE SeenBy(_, _)
+\* what each element that is entered sees on the way in: the marks ">X" of the
+\* rewriting interceptors before it, in order (one entry per letter of Word)
+SeenBy(chain, acc) ==
+  IF chain = <<>> THEN <<acc>>
+  ELSE LET x == Head(chain) IN
+       IF x[2] = "nil" THEN SeenBy(Tail(chain), acc)
+       ELSE IF x[2] \in {"short", "fail"} THEN <<acc>>
+       ELSE <<acc>> \o SeenBy(Tail(chain), IF x[2] = "rewrite" THEN Append(acc, ">" \o x[1]) ELSE acc)
 
 \* the result is an error iff its origin is a failure
 IsErr(res) == res[1] \in {"f:T", "f:L1", "f:L2", "f:L3"}
@@ -74,7 +85,9 @@ ServerChain(c) ==
 \* both interceptors of a layer are nil)
 Decorated(c) == \E i \in 1..Len(c.layers) : c.layers[i] # "nil" \/ c.other
 
-\* o: case fields + word, result, infook (every interceptor saw the right
+\* o: case fields + word, result, seen / seenreq (the marks each entered
+\* element found in its context / in the request it was given), infook (every
+\* interceptor saw the right
 \* full method name, server and streaming flags), descsame (the original
 \* descriptor is deep-equal to a copy taken before), sameptr (an undecorated
 \* layer returned its argument itself), panicked
@@ -82,6 +95,8 @@ ChkServer(o) ==
   IF o.panicked THEN {"panic"}
   ELSE V(o.word = WordOf(ServerChain(o)), "interceptor-order-or-multiplicity")
        \cup V(o.result = ResultOf(ServerChain(o)), "result-not-passed-through")
+       \cup V(o.seen = SeenBy(ServerChain(o), <<>>), "context-not-passed-onward")
+       \cup V(o.seenreq = SeenBy(ServerChain(o), <<>>), "request-not-passed-onward")
        \cup V(o.infook, "interceptor-info")
        \cup V(o.descsame, "original-descriptor-modified")
        \cup V(o.sameptr, "undecorated-layer-not-returned-as-is")
@@ -107,7 +122,10 @@ ClientChain(c) == ClientOutward(c.layers, Len(c.layers), c.kind)
 
 Wrapping(layer) == layer[1] # "nil" \/ layer[2] # "nil"
 
-\* o: case fields + word, result, ccok (every interceptor got the underlying
+\* o: case fields + word, result, seen / seenopt (the marks each entered
+\* element found in the outgoing metadata of its context / among the call
+\* options it was given; the base channel's service reports the metadata),
+\* ccok (every interceptor got the underlying
 \* *grpc.ClientConn when the base is one, nil otherwise), argsok (method name,
 \* request and options reached the base channel unchanged), unwrapok (Unwrap
 \* of each wrapper is the channel it wraps; a layer with both interceptors nil
@@ -116,6 +134,10 @@ ChkClient(o) ==
   IF o.panicked THEN {"panic"}
   ELSE V(o.word = WordOf(ClientChain(o)), "interceptor-order-or-multiplicity")
        \cup V(o.result = ResultOf(ClientChain(o)), "result-not-passed-through")
+       \cup V(o.seen = SeenBy(ClientChain(o), <<>>), "context-not-passed-onward")
+       \* (the base channel's service cannot see option objects: one entry less)
+       \cup (LET n == IF o.word # <<>> /\ o.word[Len(o.word)] = "H" THEN Len(o.word) - 1 ELSE Len(o.word) IN
+             V(o.seenopt = SubSeq(SeenBy(ClientChain(o), <<>>), 1, n), "options-not-passed-onward"))
        \cup V(o.ccok, "connection-argument")
        \cup V(o.argsok, "arguments-altered")
        \cup V(o.unwrapok, "unwrap")
